@@ -101,7 +101,10 @@ def run_c14(ctx):
 
 
 def run_c20(ctx):
-    return l1_both(ctx, release_scale_quick="1.0", miri_shards=8)
+    import l2
+    res = l1_both(ctx, release_scale_quick="1.0", miri_shards=8)
+    l2.c20_pty(ctx, res)
+    return res
 
 
 def run_c06(ctx):
@@ -276,7 +279,7 @@ PROPS = {
         "run": run_c20,
         "level": "exploration",
         "design_ref": "DESIGN.md section 4 C20",
-        "level_text": "Lockstep runtime monitor of the real line editor (constructed without TTY through the hook, fed from a key queue) against a plain reference editor: after every key the edited line, cursor and history focus must agree and the cursor must lie within the line; submitted lines and their ';' splitting must agree; panics are caught and located. Exhaustive over all key sequences up to length 5 (quick) / 6 (thorough) of a 16-key alphabet (ASCII, space, punctuation, ';', a 2-byte and a 4-byte character, every editing key) from an empty and a two-entry history, plus random sequences of 20-200 keys.",
+        "level_text": "Lockstep runtime monitor of the real line editor (constructed without TTY through the hook, fed from a key queue) against a plain reference editor: after every key the edited line, cursor and history focus must agree and the cursor must lie within the line; submitted lines and their ';' splitting must agree; panics are caught and located. Exhaustive over all key sequences up to length 5 (quick) / 6 (thorough) of a 16-key alphabet (ASCII, space, punctuation, ';', a 2-byte and a 4-byte character, every editing key) from an empty and a two-entry history, plus random sequences of 20-200 keys. At the CLI twenty sessions on a pseudo-terminal (standard output and standard error on the terminal or redirected to files): the lines submitted, read back from the history file in a private cache directory, are those a plain editor holds.",
         "level_note": "Ctrl+Right with no next word accepts both Vim-style answers (stay on the first trailing blank / go to end of line).",
         "technique": "runtime monitoring: online reference-model comparison after every key, bounded-exhaustive key sequences; Miri on a reduced enumeration (thorough)",
         "rule": "case = chunk of 2048 key sequences (evaluations counts sequences); non-trivial = chunk with a sequence containing both an edit and a cursor movement",
